@@ -210,6 +210,12 @@ def extra_race(which):
             if m:
                 cx.evaluations += int(m.group(1))
                 cx.nontrivial.add('race-run-%s-%s' % (cmd, m.group(1)))
+            me = re.search(r'exprs=(\d+)', out)
+            if me:
+                # every expression of the corpus was evaluated by all goroutines from every context
+                # node and compared with its sequential result: one distinct case per expression
+                for i in range(int(me.group(1))):
+                    cx.nontrivial.add('race-expr-%d' % i)
             cx.cov.setdefault('race_runs', []).append(dict(cmd=cmd, rounds=rr, goroutines=8, summary=[l for l in out.splitlines() if 'RUN' in l][:2]))
             if 'DATA RACE' in out:
                 i = out.find('WARNING: DATA RACE')
